@@ -77,11 +77,11 @@ def run(tier):
     rep.cov["exhaustive"] = True
     rep.cov["shapes"] = len(shapes)
     rep.cov["rule"] = ("TLC enumerates every call of the family: 31 flag vectors (0..4 params, each required or Option) x param_kind "
-                       "{array, map} x namespace {none, ns_, ns.} = 186 shapes, x handler kind {sync, async, blocking, subscription, "
+                       "{array, map} x namespace {none, ns_, ns.} = 186 shapes + 31 by-name shapes with odd parameter names (_limit, type_, chainID, rename = block-hash) = 217, x handler kind {sync, async, blocking, subscription, "
                        "alias} x every presence vector of the Option slots x encoding variant {generated stub, raw positional with "
                        "the none tail dropped, raw positional with nulls, raw by-name omitting none, raw by-name under the other-case "
                        "spelling, positional cut before the last required slot (thorough: + by-name with nulls, by-name reversed)}. "
-                       "The 186 shapes are generated as #[rpc(server, client)] traits and compiled with the tree's proc-macro; each "
+                       "The 217 shapes are generated as #[rpc(server, client)] traits and compiled with the tree's proc-macro; each "
                        "call is made k times with seeded values (u64/i64 boundaries, Unicode strings, nested struct + enum, empty and "
                        "300-element vectors; one call in four carries the marker that makes the server return an error object) "
                        "through a loop-back async Client. Compared: exactly one invocation, of the handler the spec resolves the name "
